@@ -24,6 +24,12 @@ pub fn seed_rng(seed: u64, s: i64) -> ScriptRng {
 /// sample() of a freshly constructed value of registry entry `ei` on a copy of `rng`, evaluated in a
 /// new OS thread (no thread-local history): the history-free value of F(class, state)
 fn fresh_eval(ei: usize, mutated: bool, rng: &ScriptRng) -> Option<(Result<Out, String>, ScriptRng)> {
+    fresh_chain(ei, mutated, rng, 1).and_then(|mut v| v.pop()).map(|(_, o, r)| (o, r))
+}
+
+/// `k` successive sample() calls of a freshly constructed value on a copy of `rng`, in a new OS thread:
+/// (state before, result, state after) per call; stops at the first panic
+fn fresh_chain(ei: usize, mutated: bool, rng: &ScriptRng, k: usize) -> Option<Vec<(ScriptRng, Result<Out, String>, ScriptRng)>> {
     let r0 = rng.clone();
     std::thread::spawn(move || {
         crate::util::install_quiet_panic_hook();
@@ -31,8 +37,15 @@ fn fresh_eval(ei: usize, mutated: bool, rng: &ScriptRng) -> Option<(Result<Out, 
         let mut obj = (reg[ei].make)()?;
         if mutated { obj.mutate(); }
         let mut r = r0;
-        let o = guarded(|| obj.sample(&mut r));
-        Some((o, r))
+        let mut v = vec![];
+        for _ in 0..k {
+            let pre = r.clone();
+            let o = guarded(|| obj.sample(&mut r));
+            let stop = o.is_err();
+            v.push((pre, o, r.clone()));
+            if stop { break; }
+        }
+        Some(v)
     }).join().ok().flatten()
 }
 
@@ -71,6 +84,19 @@ pub fn run_instance(sched: &Value, ea: &Entry, eb: &Entry, ca: i64, cb: i64, see
             let (rs, outid) = match res { Ok(x) => ("Ok".to_string(), oid.id(x.bits.clone())), Err(p) => (format!("Panic: {}", p), 0) };
             let post = sid.id(rng_key(post_rng));
             out.push(json!({"op": "sample", "o": o, "r": 0, "pre": st0, "out": outid, "post": post, "res": rs, "fresh": true, "pristine": true}).to_string());
+        }
+    }
+    // history-free chains (fresh value, fresh thread) of CHAIN successive samples from the first RNG state for both classes: the
+    // epilogue below samples the same chain on the objects after the whole history
+    const CHAIN: usize = 5;
+    for (o, c) in [(1i64, ca), (2i64, cb)] {
+        if let Some(ch) = fresh_chain(c as usize - 1, false, &seed_rng(seed, 1), CHAIN) {
+            for (pre_r, res, post_r) in ch {
+                let pre = sid.id(rng_key(&pre_r));
+                let (rs, outid) = match res { Ok(x) => ("Ok".to_string(), oid.id(x.bits)), Err(p) => (format!("Panic: {}", p), 0) };
+                let post = sid.id(rng_key(&post_r));
+                out.push(json!({"op": "sample", "o": o, "r": 0, "pre": pre, "out": outid, "post": post, "res": rs, "fresh": true, "chain": true}).to_string());
+            }
         }
     }
     let mut sample_ev = |objs: &Vec<Box<dyn Obj>>, o: usize, rng: &mut ScriptRng, rlabel: i64,
@@ -151,7 +177,11 @@ pub fn run_instance(sched: &Value, ea: &Entry, eb: &Entry, ca: i64, cb: i64, see
     // - the memo then compares these with the pristine references and with each other
     for o in 0..3usize {
         let mut scratch = seed_rng(seed, 1);
-        sample_ev(&objs, o, &mut scratch, 0, &mut sid, &mut oid, out);
+        for _ in 0..CHAIN {
+            let n0 = out.len();
+            sample_ev(&objs, o, &mut scratch, 0, &mut sid, &mut oid, out);
+            if out[n0..].iter().any(|l| l.contains("Panic")) { break; }       // the RNG state after a panic is not a state of the model
+        }
     }
     true
 }
